@@ -273,6 +273,16 @@ def validator_structure(module: str, qualname: str, allowed: str) -> tuple[list[
             probs.append("the walk is not guarded by `absolute != resolved` (or guarded by something else)")
         if "absolute = path.absolute()" not in src or "resolved = absolute.resolve(strict=False)" not in src:
             probs.append("absolute / resolved are not path.absolute() / absolute.resolve(strict=False)")
+    # (d) the path that is CHECKED is the string that will be OPENED: `path` is bound exactly once, as Path(<the parameter>) -
+    # no expanduser / expandvars / normpath / helper in between (a validator that checks a rewritten path checks another file)
+    params = [a.arg for a in fn.args.args if a.arg != "self"]
+    binds = [n for n in ast.walk(fn) if isinstance(n, (ast.Assign, ast.AnnAssign, ast.AugAssign, ast.NamedExpr)) and any(isinstance(t, ast.Name) and t.id == "path" for t in ast.walk(n.targets[0] if isinstance(n, ast.Assign) else n.target))]
+    if len(binds) != 1 or not params or ast.unparse(binds[0].value) != f"Path({params[0]})":
+        probs.append("`path` is not bound exactly once as Path(<the path parameter>): " + "; ".join(ast.unparse(b)[:60] for b in binds[:2]))
+    elif any(isinstance(n, ast.Name) and n.id == params[0] and isinstance(n.ctx, ast.Store) for n in ast.walk(fn)):
+        probs.append("the path parameter is re-bound inside the validator")
+    else:
+        facts.append("the checked Path is built directly from the parameter, once")
     # (c) extension allow-list: both suffix tests must fail before refusal, final return True only after them
     if f"if path.suffix not in {allowed}:" not in src or f"if compound_suffix not in {allowed}:" not in src:
         probs.append("extension allow-list test not found")
